@@ -274,8 +274,14 @@ class Handle:
         f.mtime = g._tick()
         g._after("write")
 
+    def close(self):          # an explicit close() instead of a with-statement: the same close operation (once)
+        if not self.closed:
+            self.__exit__(None, None, None)
+
     def __exit__(self, et, ev, tb):
         g = self.gfs
+        if self.closed:
+            return False
         self.closed = True
         f = g.fs.get(self.path)
         if g.outcome(2, "close") == 1:
